@@ -1021,8 +1021,8 @@ func (m *Memory) writeDb(rLocked bool) {
 	l := len(times)
 	m.SavePending.Add(-int32(l))
 
-	// fork
-	go m.savePool.Go(func() error {
+	// fork, unless the caller waits for the records (Sync)
+	save := func() error {
 		if m.disposed.Load() {
 			return nil
 		}
@@ -1053,7 +1053,12 @@ func (m *Memory) writeDb(rLocked bool) {
 		}
 
 		return nil
-	})
+	}
+	if rLocked {
+		go m.savePool.Go(save)
+	} else {
+		_ = save()
+	}
 }
 
 func (m *Memory) log(msg string, args ...any) {
